@@ -95,6 +95,7 @@ type MidStep struct {
 type Step struct {
 	A          string      `json:"a"`
 	Mid        []MidStep   `json:"mid"`
+	CrashAt    int         `json:"crashAt"` // the process dies right before the k-th API call of this reconcile (then restarts)
 	Pod        string      `json:"pod"`
 	Faults     []FaultSpec `json:"faults"`
 	ProvCreate string      `json:"provCreate"` // ok | ICE | NCNR | err
@@ -117,6 +118,8 @@ type Behaviour struct {
 	Tag   string `json:"tag"`
 	Idx   int    `json:"idx"`
 }
+
+type crash struct{}
 
 type sim struct {
 	w     *world.World
@@ -219,13 +222,16 @@ func (s *sim) bracket(controller, object string, st Step, view trace.M, f func()
 	// view: the (possibly lagging) informer copy the reconcile was handed, for the eviction queue
 	s.w.Emit(trace.M{"e": "Begin", "controller": controller, "object": object, "stale": st.Stale, "view": view})
 	errS, panicked, requeue := "-", false, false
-	if len(st.Mid) > 0 {
+	if len(st.Mid) > 0 || st.CrashAt > 0 {
 		n := 0
 		s.w.Gate = func(c world.Call) {
 			if c.Actor != controller {
 				return
 			}
 			n++
+			if st.CrashAt == n {
+				panic(crash{})
+			}
 			for _, m := range st.Mid {
 				if m.At == n {
 					s.w.Emit(trace.M{"e": "Skip", "a": "Mid", "why": fmt.Sprintf("before call %d (%s %s)", n, c.Verb, c.Kind)})
@@ -240,6 +246,10 @@ func (s *sim) bracket(controller, object string, st Step, view trace.M, f func()
 	func() {
 		defer func() {
 			if r := recover(); r != nil {
+				if _, ok := r.(crash); ok { // a simulated process death, not a panic of the code
+					errS = "crash"
+					return
+				}
 				panicked = true
 				errS = fmt.Sprint(r)
 			}
@@ -251,8 +261,12 @@ func (s *sim) bracket(controller, object string, st Step, view trace.M, f func()
 		}
 	}()
 	s.unplan()
+	s.w.Gate = nil
 	s.w.Emit(trace.M{"e": "End", "controller": controller, "object": object, "err": errS, "panic": panicked, "requeue": requeue})
 	s.mem()
+	if errS == "crash" {
+		_ = s.step(Step{A: "Restart"})
+	}
 }
 
 func (s *sim) skip(a, why string) { s.w.Emit(trace.M{"e": "Skip", "a": a, "why": why}) }
